@@ -76,7 +76,8 @@ def handleC06 (op : String) (input impl : Json) : Except String Json := do
     let m : Res Json := match blockEncode maxCell rows with
       | .ok b =>
         match blockDecode b with
-        | .ok (rs, _) => .ok (Json.mkObj [("bytes", jBytes b), ("combined", jBytes b), ("read", jRows rs), ("valid", true)])
+        | .ok (rs, _) => .ok (Json.mkObj [("bytes", jBytes b), ("combined", jBytes b), ("read", jRows rs),
+                                           ("valid", Json.bool (decide (1 ≤ rows.length ∧ rows.length ≤ Facts.blockSize)))])
         | _ => .ok (Json.mkObj [("bytes", jBytes b), ("read", "err")])
       | .err e => .err e
       | .panic p => .panic p
@@ -85,7 +86,7 @@ def handleC06 (op : String) (input impl : Json) : Except String Json := do
       if resClass impl == "ok" then
         let v := implVal impl
         (if (fldD v "read" Json.null).compress == (jRows rows).compress then [] else ["block-roundtrip"]) ++
-        (if (fldD v "valid" Json.null).compress == "true" then [] else ["block-valid"])
+        (if (fldD v "valid" Json.null).compress == (Json.bool (decide (1 ≤ rows.length ∧ rows.length ≤ Facts.blockSize))).compress then [] else ["block-valid"])
       else []
     return reply mj (sameRes impl mj) viol
   | "table" =>
